@@ -20,10 +20,13 @@
  *   restrict <flags> <list-syntax bitmap>
  *   dup               hwloc_topology_dup, destroy the old topology, continue on the copy
  *   xml <flags>       export to an XML buffer, load it into a new topology, destroy the old one
+ *   shm               write the topology to a shared-memory file, adopt it, look at the adopted (read-only) topology,
+ *                     try to modify its distances, destroy it; the original stays the current topology
  * Calls that cannot be made (no live handle, k out of range) are logged as {"e":"skip"}.
  */
 #include "hwv_common.h"
 #include <hwloc.h>
+#include <hwloc/shmem.h>
 #include <stdint.h>
 
 #define MAXC 16
@@ -406,6 +409,38 @@ static void do_xml(char *p) {
   out_surv(); out(","); out_obs(); out("}"); out_end();
 }
 
+static void do_shm(void) {
+  size_t len = 0; int fd = -1, lret, wret = -1, werr = 0, aret = -1, aerr = 0, rmret = 0, rmerr = 0, crok = 0, crerr = 0;
+  void *addr = NULL; hwloc_topology_t ad = NULL; char path[] = "/var/tmp/hwv_dist_shm.XXXXXX";
+  pre_collect();
+  errno = 0; lret = hwloc_shmem_topology_get_length(topo, &len, 0);
+  if (lret == 0) {
+    fd = mkstemp(path);
+    if (fd >= 0) unlink(path);
+    addr = mmap(NULL, len, PROT_NONE, MAP_PRIVATE | MAP_ANONYMOUS, -1, 0);     /* find a free range */
+    if (addr != MAP_FAILED) munmap(addr, len); else addr = NULL;
+  }
+  if (fd >= 0 && addr) {
+    errno = 0; wret = hwloc_shmem_topology_write(topo, fd, 0, addr, len, 0); werr = errno;
+    if (wret == 0) { errno = 0; aret = hwloc_shmem_topology_adopt(&ad, fd, 0, addr, len, 0); aerr = errno; }
+  }
+  out("{\"e\":\"shm\",\"lret\":%d,\"wret\":%d,\"werrno\":\"%s\",\"aret\":%d,\"aerrno\":\"%s\",", lret, wret, wret < 0 ? errname(werr) : "0", aret, aret < 0 ? errname(aerr) : "0");
+  if (aret == 0 && ad) {
+    hwloc_topology_t saved = topo; void *h2;
+    topo = ad; tab_build();
+    out_surv(); out(",\"adopted\":{"); out_obs(); out("},");
+    errno = 0; rmret = hwloc_distances_remove(ad); rmerr = errno;
+    errno = 0; h2 = hwloc_distances_add_create(ad, "x", HWLOC_DISTANCES_KIND_FROM_USER | HWLOC_DISTANCES_KIND_VALUE_LATENCY, 0); crerr = errno; crok = h2 != NULL;
+    out("\"rmret\":%d,\"rmerrno\":\"%s\",\"crok\":%d,\"crerrno\":\"%s\",\"adopted2\":{", rmret, rmret < 0 ? errname(rmerr) : "0", crok, crok ? "0" : errname(crerr));
+    out_obs(); out("},");
+    hwloc_topology_destroy(ad);
+    topo = saved;
+  } else out("\"surv\":[],\"adopted\":{\"obs\":{\"ret\":-1,\"nr\":0,\"l\":[]}},\"rmret\":0,\"rmerrno\":\"0\",\"crok\":0,\"crerrno\":\"0\",\"adopted2\":{\"obs\":{\"ret\":-1,\"nr\":0,\"l\":[]}},");
+  if (fd >= 0) close(fd);
+  cands_refresh();
+  out_obs(); out("}"); out_end();
+}
+
 static void handler(char **lines, size_t n, int beh) {
   size_t i;
   for (i = 0; i < n; i++) {
@@ -426,6 +461,7 @@ static void handler(char **lines, size_t n, int beh) {
     else if (!strcmp(cmd, "restrict")) do_restrict(p);
     else if (!strcmp(cmd, "dup")) do_dup();
     else if (!strcmp(cmd, "xml")) do_xml(p);
+    else if (!strcmp(cmd, "shm")) do_shm();
     free(line);
   }
 }
